@@ -3,15 +3,19 @@
 code implementing a property (used to test that the checks raise no false alarm)."""
 import json, sys
 pid = sys.argv[1]
+rnd = sys.argv[2] if len(sys.argv) > 2 else ''
+out = '/tmp/ben' + rnd + '/' + pid
+wt = '/tmp/wt/b' + rnd + pid
 for l in open('/verif/properties.jsonl'):
     p = json.loads(l)
     if p['id'] == pid:
         break
 else:
     sys.exit("no such property")
+extra = (", but spread the four changes over different files where the property involves several (helpers, secondary implementations such as the reflection-based codec, generated-code emitters, client side versus server side, shutdown and error paths), and make at least one change a combination of two refactorings (e.g. extract a helper AND switch the loop form)" if rnd else "")
 print(f"""You are helping test a verification effort on an open-source Go project, lugu/qiloop (a Go implementation of SoftBank's QiMessaging RPC protocol: wire format, type-signature codec, IDL parser and proxy/stub generator, client/server bus, service directory).
 
-Your own scratch git worktree of the project is at /tmp/wt/b{pid} (detached HEAD of the project's current commit). Work ONLY inside /tmp/wt/b{pid} and write your results to /tmp/ben/{pid}/. Do NOT read or touch /repo, /verif, /root/.vp or other directories under /tmp/wt, /tmp/mut or /tmp/ben: your work must be independent.
+Your own scratch git worktree of the project is at {wt} (detached HEAD of the project's current commit). Work ONLY inside {wt} and write your results to {out}/. Do NOT read or touch /repo, /verif, /root/.vp or other directories under /tmp/wt, /tmp/mut or /tmp/ben: your work must be independent.
 
 Here is a semantic property the project satisfies:
 
@@ -28,9 +32,9 @@ Task: produce FOUR different, independent, BEHAVIOUR-PRESERVING source changes t
   - moving a function to another file of the same package;
   - replacing `x.mu.Lock(); ...; x.mu.Unlock()` by `x.mu.Lock(); defer x.mu.Unlock()` (or the reverse) when equivalent;
   - introducing a named constant for a literal, or a small named type for clarity.
-Make each of the four changes non-trivial (touching 10-40 lines is fine) and of a different nature; prefer the functions most central to the property. Each must compile (`go build ./...`) and pass the existing suite unchanged: `cd /tmp/wt/b{pid} && GOPROXY=off GOSUMDB=off GOTOOLCHAIN=local go test -vet=off -count=1 -p 4 ./...` (one test, examples/clock TestSynchronizedTimestamp, is timing-sensitive and may flake under load; re-run it alone if it fails).
+Make each of the four changes non-trivial (touching 10-40 lines is fine) and of a different nature; prefer the functions most central to the property{extra}. Each must compile (`go build ./...`) and pass the existing suite unchanged: `cd {wt} && GOPROXY=off GOSUMDB=off GOTOOLCHAIN=local go test -vet=off -count=1 -p 4 ./...` (one test, examples/clock TestSynchronizedTimestamp, is timing-sensitive and may flake under load; re-run it alone if it fails).
 
-For each change N in 1..4 write into /tmp/ben/{pid}/rN/ :
+For each change N in 1..4 write into {out}/rN/ :
   - patch.diff : output of `git diff` in the worktree with ONLY that change applied (must apply to a clean checkout with `git apply`);
   - README.md : what was changed, and a short argument why behaviour (and the property) is preserved.
 Leave the worktree clean (`git checkout -- . && git clean -fd`) when done. Do not commit. Do not modify tests. Do not edit generated files (*_gen.go) unless you regenerate nothing — simply avoid them. There is no network. Other agents are running on this machine: use at most 4 cores.
